@@ -29,9 +29,9 @@ func (s *viewSvc2) Fixd(context.Context) (*svc.Outer, error)        { return s.r
 // per-view override ("default" inside the parent's default view); a dynamic
 // and a fixed-view method on the same result type.
 func VerifC08_w2() {
-	want := &svc.Outer{A: nondetStringUpTo("a", 1)}
+	want := &svc.Outer{A: nondetStringUpTo("a", deep(1))}
 	if nondetBool("b-set") {
-		want.B = &svc.Inner{C: nondetStringUpTo("c", 1), D: nondetInt("d")}
+		want.B = &svc.Inner{C: nondetStringUpTo("c", deep(1)), D: nondetInt("d")}
 	}
 	dynamic := nondetBool("dynamic-method")
 	view := "default"
@@ -111,9 +111,9 @@ func VerifC08_w2() {
 // VerifC08_w2_coll: a collection declared with a DSL that only documents it
 // still offers the views of its element type.
 func VerifC08_w2_coll() {
-	want := &svc.Outer{A: nondetStringUpTo("a", 1)}
+	want := &svc.Outer{A: nondetStringUpTo("a", deep(1))}
 	if nondetBool("b-set") {
-		want.B = &svc.Inner{C: nondetStringUpTo("c", 1), D: nondetInt("d")}
+		want.B = &svc.Inner{C: nondetStringUpTo("c", deep(1)), D: nondetInt("d")}
 	}
 	view := "default"
 	if nondetBool("tiny") {
